@@ -14,6 +14,9 @@ class Fn:
     external_body     : keep only the signature+contract; body replaced by unimplemented!() (assumed contract, listed)
     rules             : opt-in rewrite rules for this function only, set after construction (`fn.rules = ('R18',)`);
                         R18 = `async fn` -> `fn`, `EXPR.await` -> `EXPR` (extract.r18_sig / r18_await)
+                        R21 = `for P in &E {` -> `for P in E.iter() {`; R22 = `let P = E.iter().position(|X| {B});` -> index loop;
+                        R23 = ghost token: `fn.ghost_token = dict(param=, arg=, callees=[..])` appended to the signature and to
+                        every `.callee(..)` call (extract.r21_* / r22_* / r23_*)
     """
     rules = ()
 
